@@ -313,7 +313,10 @@ def run_batch(case, ctx):
                 calls.append(("set_reference", X))
                 continue
             r = rng.random()
-            if pin is not None and r < 0.25 and i > 1:
+            if r > 0.93 and i > 1:
+                calls.append(("reset", X))  # the user's own reset() (whatever was pending is dropped; the next batch starts over as reference)
+                calls.append(("update", X))
+            elif pin is not None and r < 0.25 and i > 1:
                 calls.append(("set_reference", pin))
             elif r < 0.06 and i > 1:
                 calls.append(("set_reference", X))
@@ -333,6 +336,12 @@ def run_batch(case, ctx):
     with rngtap.Tap() as tap:
         for i, (op, X) in enumerate(calls):
             np.random.seed(rngtap.seed_for(case.get("seed_key", case["id"]), i))
+            if op == "reset":
+                det.reset()
+                model, pending_ref = None, None
+                log.append(["reset", None])
+                ctx.count("explicit_resets")
+                continue
             mark = tap.mark()
             getattr(det, op)(X if (pin is not None and X is pin) else (X.astype(idt) if idt else (X.astype(np.float32) if (f32 and i > 0 and op == "update") else X.copy())))
             ev = tap.since(mark)
